@@ -71,9 +71,9 @@ def open_variants(ras):
     return v
 
 
-def open_event(c, var):
+def open_event(c, var, bgp_id=0x0a000002):
     name, as2, as4, hold, caps, ver, each, acc, esub = var
-    data = wire.open_msg2(as2, as4, hold, caps=caps, version=ver, one_param_each=each)
+    data = wire.open_msg2(as2, as4, hold, bgp_id=bgp_id, caps=caps, version=ver, one_param_each=each)
     cls = 'OPEN_OK' if acc == 1 else {1: 'OPEN_BADVER', 2: 'OPEN_BADAS', 6: 'OPEN_BADHOLD'}[esub]
     return ({'k': 'data', 'c': c, 'hex': data.hex(), 'cls': cls, 'h': hold, 'm': name}, data, {'acc': acc, 'esub': esub, 'flen': len(data)})
 
@@ -99,7 +99,11 @@ def c05_run(tid, wcfg, cfgline, history, final):
     rec = R.Recorder(w, tid, cfgline)
     c = first_session(w, rec)
     our_as4 = None
-    for (var, ending) in history + [(final, 'observe')]:
+    # the peer's BGP identifier is not part of the acceptance policy: it changes from session to session in two of
+    # three runs (A,B,C,... / A,A,B,B,... / always A)
+    ids = (0x0a000002, 0x0a000003, 0xc0a80001)
+    for si, (var, ending) in enumerate(history + [(final, 'observe')]):
+        bgp_id = ids[(0, si % 3, ((si + 1) // 2) % 3)[tid % 3]]
         if c is None:
             break
         for ln in rec.lines[::-1]:
@@ -107,7 +111,7 @@ def c05_run(tid, wcfg, cfgline, history, final):
             if opens:
                 our_as4 = opens[-1].get('has_as4')
                 break
-        ev, data, extra = open_event(c, var)
+        ev, data, extra = open_event(c, var, bgp_id)
         o = rec.step(ev, c, data=data, extra=extra)
         if o['st'] == 'OPENCONFIRM':
             o = rec.step({'k': 'msg', 'c': c, 'm': 'KA'}, c)
